@@ -4,7 +4,7 @@
    is loaded with (default, or p again), c = a component of the package, c' = the component as stored. *)
 From Coq Require Import String Ascii List Bool ZArith Arith.
 Import ListNotations.
-Require Import V.Lib.PyStr V.Lib.JTree V.Conf.Model V.Conf.Proofs V.Reload.Model V.Reload.Proofs V.Reload.Obs V.Reload.Idem V.Reload.IdemDoc.
+Require Import V.Lib.PyStr V.Lib.JTree V.Conf.Model V.Conf.Proofs V.Reload.Model V.Reload.Proofs V.Reload.Obs V.Reload.Idem V.Reload.IdemDoc V.Reload.IdemAll.
 Open Scope string_scope.
 
 (* Variables: every variable of every component has, in the reloaded document, the value the package gives it on p
@@ -213,6 +213,34 @@ Theorem C07_environments_idempotent : forall envs p,
 Proof. exact reflatten_envs. Qed.
 Print Assumptions C07_environments_idempotent.
 
+(* The stage blueprints and the list of stage keys; [all_clean d p]: every component of d that is stored with its layers
+   folded in has clean side layers on p *)
+Theorem C07_stage_blueprint_idempotent : forall d envs u p fd sk bs bs2,
+  flatten_raw d envs u p = Some fd ->
+  existsb (String.eqb sk) (stage_keys (d_components d)) = true -> is_dict (bp_stage d DEF sk) ->
+  fl_bp_stage d p sk = Some bs -> fl_bp_stage (f_doc fd) p sk = Some bs2 -> jeq bs2 bs.
+Proof. exact reflatten_bp_stage. Qed.
+Print Assumptions C07_stage_blueprint_idempotent.
+
+Theorem C07_stage_keys_idempotent : forall d envs u p fd,
+  flatten_raw d envs u p = Some fd -> all_clean d p ->
+  stage_keys (d_components (f_doc fd)) = stage_keys (d_components d).
+Proof. exact reflatten_stage_keys. Qed.
+Print Assumptions C07_stage_keys_idempotent.
+
+(* Loading and storing again does not change the stored description - ONE statement about the whole flattened document
+   (structural part): if the document that instance() stored is flattened again (selected platform p again, user variables
+   patched in again) the result is the same stored description [fdoc_same]: the same global and stage blueprints (as
+   trees), the same stage keys, the same global variables, the same stage variables (as finite maps), pairwise the same
+   components (as trees) and the same environments. *)
+Theorem C07_document_idempotent : forall d envs u p fd fd2,
+  flatten_raw d envs u p = Some fd -> all_clean d p ->
+  is_dict (bp_global d DEF) -> (forall sk, is_dict (bp_stage d DEF sk)) ->
+  flatten_raw (f_doc fd) (JDict [(DEF, JDict (f_envs fd))]) u p = Some fd2 ->
+  fdoc_same (stage_keys (d_components d)) fd2 fd.
+Proof. exact reflatten_whole. Qed.
+Print Assumptions C07_document_idempotent.
+
 (* The value part: text that holds no reference (no '%': what interpolation leaves behind when every reference was
    resolved) is a fixed point of the tolerant interpolation of instance(), in every context *)
 Theorem C07_interpolation_closed : forall ctx s, no_pct s ->
@@ -270,9 +298,13 @@ Example C07_nonvacuous :
    exists c', store_comp_raw ex_rep_doc "p" (hd JNull (d_components ex_rep_doc)) = Some c' /\
               get_path RI c' = Some (JInt 5) /\ get_path IR c' = Some (JBool true) /\
               store_comp_raw ex_rep_doc "p" c' = Some c') /\
-  is_dict (bp_global ex_doc DEF) /\ no_pct "echo-p".
+  is_dict (bp_global ex_doc DEF) /\ no_pct "echo-p" /\
+  (* the hypotheses of C07_document_idempotent: the flattened document can be flattened again *)
+  all_clean ex_doc "p" /\ (forall sk, is_dict (bp_stage ex_doc DEF sk)) /\
+  (exists fd fd2, flatten_raw ex_doc ex_envs ex_user "p" = Some fd /\
+                  flatten_raw (f_doc fd) (JDict [(DEF, JDict (f_envs fd))]) ex_user "p" = Some fd2).
 Proof.
-  split; [|split; [|split; [|split; [|split; [|split; [|split; [|split]]]]]]].
+  split; [|split; [|split; [|split; [|split; [|split; [|split; [|split; [|split; [|split; [|split]]]]]]]]]].
   - eexists. split; [vm_compute; reflexivity|]. vm_compute. repeat split; reflexivity.
   - vm_compute. reflexivity.
   - unfold uniq. vm_compute. repeat constructor. intros [].
@@ -283,4 +315,7 @@ Proof.
     eexists. split; [vm_compute; reflexivity|]. vm_compute. repeat split; reflexivity.
   - eexists. vm_compute. reflexivity.
   - reflexivity.
+  - intros c sk [<-|[]] _ Hs. vm_compute in Hs. injection Hs as <-. unfold clean. vm_compute. repeat constructor.
+  - intros sk. eexists. reflexivity.
+  - do 2 eexists. split; vm_compute; reflexivity.
 Qed.
